@@ -112,40 +112,69 @@ def _canon_model_state(s):
 # --------------------------------------------------------------------------
 # generation
 # --------------------------------------------------------------------------
+def _uleb(v):
+    out = []
+    while True:
+        b = v & 0x7F
+        v >>= 7
+        out.append(b | (0x80 if v else 0))
+        if not v:
+            return out
+
+
+def _sleb(v):
+    out = []
+    while True:
+        b = v & 0x7F
+        v >>= 7
+        done = (v == 0 and not b & 0x40) or (v == -1 and b & 0x40)
+        out.append(b | (0 if done else 0x80))
+        if done:
+            return out
+
+
 def _escape_bytes(rng, bo, ptr, kind):
-    from gtirb_rewriting.dwarf import cfi, expr
+    """the bytes of escaped CFA instructions, encoded here from the DWARF tables (not with the encoders under test)"""
+
+    def fixed(v, n, signed=False):
+        return list(int(v).to_bytes(n, bo, signed=signed))
 
     def ex():
-        ops = []
+        out = []
         for _ in range(rng.randint(1, 3)):
-            ops.append(rng.choice([
-                lambda: expr.OpBReg(rng.randrange(32), rng.randint(-300, 300)),
-                lambda: expr.OpConst2U(rng.randrange(65536)),
-                lambda: expr.OpConst4S(rng.randint(-2**31, 2**31 - 1)),
-                lambda: expr.OpPlusUConst(rng.randrange(1000)),
-                lambda: expr.OpDeref(),
-                lambda: expr.OpLit(rng.randrange(32)),
-                lambda: expr.OpAddr(rng.randrange(2**32)),
-                lambda: expr.OpPlus(),
-            ])())
-        return ops
+            k = rng.randrange(8)
+            if k == 0:
+                out += [0x70 + rng.randrange(32)] + _sleb(rng.choice([rng.randint(-300, 300), -8, -16, -64, -65, 63, 64, -1]))   # DW_OP_breg<n>
+            elif k == 1:
+                out += [0x0A] + fixed(rng.randrange(65536), 2)                  # DW_OP_const2u
+            elif k == 2:
+                out += [0x0D] + fixed(rng.randint(-2**31, 2**31 - 1), 4, True)  # DW_OP_const4s
+            elif k == 3:
+                out += [0x23] + _uleb(rng.randrange(1000))                      # DW_OP_plus_uconst
+            elif k == 4:
+                out += [0x06]                                                   # DW_OP_deref
+            elif k == 5:
+                out += [0x30 + rng.randrange(32)]                               # DW_OP_lit<n>
+            elif k == 6:
+                out += [0x03] + fixed(rng.randrange(2**32), ptr)                # DW_OP_addr
+            else:
+                out += [0x22]                                                   # DW_OP_plus
+        return out
+
+    def block(e):
+        return _uleb(len(e)) + e
 
     if kind == "cfa":
-        insts = [cfi.InstDefCFAExpression(ex())]
-    elif kind == "at":
-        insts = [cfi.InstExpression(rng.randrange(40), ex())]
-    elif kind == "is":
-        insts = [cfi.InstValExpression(rng.randrange(40), ex())]
-    elif kind == "nop":
-        insts = [cfi.InstNop(), cfi.InstNop()]
-    elif kind == "multi":
-        insts = [cfi.InstNop(), cfi.InstExpression(rng.randrange(40), ex()), cfi.InstDefCFAExpression(ex())]
-    else:  # unsupported escaped instruction
-        insts = [cfi.InstDefCFAOffsetSF(rng.randint(-5, 5))]
-    out = []
-    for i in insts:
-        out += list(i.encode(bo, ptr))
-    return out
+        return [0x0F] + block(ex())                                             # DW_CFA_def_cfa_expression
+    if kind == "at":
+        return [0x10] + _uleb(rng.randrange(40)) + block(ex())                  # DW_CFA_expression
+    if kind == "is":
+        return [0x16] + _uleb(rng.randrange(40)) + block(ex())                  # DW_CFA_val_expression
+    if kind == "nop":
+        return [0x00, 0x00]
+    if kind == "multi":
+        return [0x00] + [0x10] + _uleb(rng.randrange(40)) + block(ex()) + [0x0F] + block(ex())
+    return [0x13] + _sleb(rng.randint(-5, 5))                                   # DW_CFA_def_cfa_offset_sf: not supported
 
 
 def _gen_procedure(rng, nsyms, bo, ptr):
@@ -438,8 +467,66 @@ CORPUS = [
 ]
 
 
+def check_escape_operands(ctx, rng):
+    """an escaped DW_CFA_def_cfa_expression whose bytes are written out here from the DWARF standard's encodings: the
+    expression the evaluator reports has to hold the operand values the bytes stand for (independent of the
+    encoder/decoder tables of the code under test, which the model is regenerated from)"""
+    import gtirb
+    from gtirb_test_helpers import add_code_block, add_text_section, create_test_module
+
+    from gtirb_rewriting._auxdata import NULL_UUID
+    from gtirb_rewriting.dwarf.cfi_eval import evaluate_cfi_directives
+
+    want, data = [], []
+    for _ in range(rng.randint(1, 3)):
+        k = rng.randrange(6)
+        if k == 0:
+            r, off = rng.randrange(32), rng.choice([rng.randint(-300, 300), -8, -16, -64, -65, 63, 64, -1, 0])
+            want.append({"cls": "OpBReg", "args": [r, off]})
+            data += [0x70 + r] + _sleb(off)
+        elif k == 1:
+            v = rng.randrange(65536)
+            want.append({"cls": "OpConst2U", "args": [v]})
+            data += [0x0A] + list(v.to_bytes(2, "little"))
+        elif k == 2:
+            v = rng.choice([rng.randint(-2**31, 2**31 - 1), -1, -128])
+            want.append({"cls": "OpConst4S", "args": [v]})
+            data += [0x0D] + list(v.to_bytes(4, "little", signed=True))
+        elif k == 3:
+            v = rng.choice([rng.randrange(1000), 127, 128, 16383, 16384])
+            want.append({"cls": "OpPlusUConst", "args": [v]})
+            data += [0x23] + _uleb(v)
+        elif k == 4:
+            v = rng.randrange(32)
+            want.append({"cls": "OpLit", "args": [v]})
+            data += [0x30 + v]
+        else:
+            v = rng.choice([rng.randint(-2**20, 2**20), -64, -65, 63, 64])
+            want.append({"cls": "OpConstS", "args": [v]})
+            data += [0x11] + _sleb(v)
+    esc = [0x0F] + _uleb(len(data)) + data
+    case = {"escape_operands": esc, "want": want}
+    ctx.case(("escape-operands", tuple(esc)), sample=case if len(ctx.samples) < 6 else None, nontrivial=True)
+    ctx.count("escape-operands")
+    _, m = create_test_module(gtirb.Module.FileFormat.ELF, gtirb.Module.ISA.X64)
+    _, bi = add_text_section(m, address=0x1000)
+    b = add_code_block(bi, b"\x90\xc3")
+    m.aux_data["cfiDirectives"].data[gtirb.Offset(b, 0)] = [(".cfi_startproc", [], NULL_UUID), (".cfi_escape", esc, NULL_UUID)]
+    m.aux_data["cfiDirectives"].data[gtirb.Offset(b, 2)] = [(".cfi_endproc", [], NULL_UUID)]
+    try:
+        states = [st for _, _, st in evaluate_cfi_directives(m, [b]) if st is not None]
+        got = [_obj_json(o) for o in states[0].current.cfa.expression]
+    except Exception as e:  # noqa: BLE001
+        ctx.violation("C15:escape-operands:raises", "a well-formed escaped DW_CFA_def_cfa_expression %s raises %s: %s" % (esc, type(e).__name__, str(e)[:80]), case)
+        return
+    if got != want:
+        ctx.violation("C15:escape-operands", "escaped expression %s evaluates to %s, the bytes stand for %s" % (esc, got, want), case)
+
+
 def run(ctx):
     pending = []
+    for _ in range(ctx.budget(150, 3000)):
+        check_escape_operands(ctx, ctx.rng)
     for case in CORPUS:
         check_case(ctx, case, pending)
     n = ctx.budget(1500, 40000)
@@ -452,5 +539,10 @@ def run(ctx):
 
 def replay(ctx, payload):
     pending = []
+    c = payload.get("case", payload)
+    if isinstance(c, dict) and "escape_operands" in c:
+        import random
+
+        return check_escape_operands(ctx, random.Random(0))
     check_case(ctx, payload.get("case", payload), pending)
     flush(ctx, pending)
